@@ -73,7 +73,7 @@ def init (ws : List String) : Option FeeflowState :=
     let vaults := (listOf (lookupStr m "vaults")).mapM fun t => t.toNat?.map fun a => ({ asset := a, pend := 0 } : Collector.Vault)
     match pools, vaults with
     | some pools, some vaults =>
-      let nassets := (pools.foldl (fun acc p => max acc (max p.a p.b)) dist) + 1
+      let nassets := (vaults.foldl (fun acc v => max acc v.asset) (pools.foldl (fun acc p => max acc (max p.a p.b)) dist)) + 1
       some {
         cfg := { d := { genesis := genesis, duration := dur, owner := ADMIN },
                  c := { dist := dist, nassets := nassets, distributor := DISTRIBUTOR, owner := ADMIN },
@@ -124,10 +124,19 @@ def hopsOf (cfg : Feeflow.Cfg) (asset : Nat) (kind : String) : Option (List (Nat
     | none => none
   else none
 
-/-- the `FeesFor` named by a direct `collect` / `aggregate` line: `vfac` | `pfac` | `xfac` | `pool <k>` | `vault <k>` -/
+/-- the `limit` argument of a factory page: `-` = `None`, a number = `Some(n)` -/
+def limit? (s : String) : Option (Option Nat) := if s == "-" then some none else s.toNat?.map some
+
+/-- the page limit the harness sends when the line names none (`limit: Some(30)`, as `ForwardFees` does) -/
+def HARNESS_LIMIT : Option Nat := some 30
+
+/-- the `FeesFor` named by a direct `collect` / `aggregate` line: `vfac [<limit>]` | `pfac [<limit>]` |
+    `xfac` | `pool <k>` | `vault <k>` -/
 def feesFor? : List String → Option Collector.FeesFor
-  | ["vfac"] => some .vaultFactory
-  | ["pfac"] => some .poolFactory
+  | ["vfac"] => some (.vaultFactory HARNESS_LIMIT)
+  | ["pfac"] => some (.poolFactory HARNESS_LIMIT)
+  | ["vfac", l] => (limit? l).map .vaultFactory
+  | ["pfac", l] => (limit? l).map .poolFactory
   | ["xfac"] => some .wrongFactory
   | ["pool", k] => k.toNat?.map .onePool
   | ["vault", k] => k.toNat?.map .oneVault
